@@ -301,10 +301,21 @@ def one_dataset(obs, rng, conv, spec, mode):
                     encoding[gname] = {'_FillValue': -999.0 if gvar.dtype == numpy.float64 else numpy.float32(-999.0)}
             if encoding:
                 obs.cls('cli:holes-stored-as-numeric-fill-value')
+        many = mode == 'in-process' and spec['case'] % 24 == 5
+        if many:
+            # a dataset with more data variables than xarray keeps files open at once (file_cache_maxsize, 128): whatever
+            # the command still has to read when it writes its output must not live in a directory that is already gone
+            face = model.kinds[model.default_kind]
+            for k in range(140):
+                plain['extra_%03d' % k] = (face.dims, numpy.full(face.shape, float(k)))
+            obs.cls('cli:dataset-with-more-than-128-variables')
         plain.to_netcdf(inp, encoding=encoding)          # plain xarray: the dataset "written to disk"
         env = Env(obs, rng, model, tmp, inp, mode, spec)
         obs.cls('cli:' + conv)
-        if mode == 'subprocess':
+        env.many_vars = many
+        if many:
+            ops = [op_clip]
+        elif mode == 'subprocess':
             ops = [pick(rng, [op_clip, op_points, op_points, op_export, op_export, op_user_error, op_user_error])]
         else:
             ops = [op_clip, op_points, op_points, op_points, op_export, op_export, op_export, op_user_error, op_user_error]
@@ -463,7 +474,7 @@ def op_clip(env):
                 f.write(text)
     out_cli, out_lib = env.path('clip-cli.nc'), env.path('clip-lib.nc')
     argv = ['clip', env.inp, arg, out_cli]
-    if chance(rng, 0.3):
+    if chance(rng, 0.3) and not getattr(env, 'many_vars', False):
         wd = env.path('workdir')
         os.mkdir(wd)
         argv += ['--work_dir', wd]
